@@ -165,4 +165,71 @@ def topology(tag, dead_immediate, dead_middle, unstarted_middle):
 rec(1, lambda: topology("greenlets-dead-middle-ancestor", False, True, False))
 rec(1, lambda: topology("greenlets-dead-immediate-parent", True, False, False))
 rec(1, lambda: topology("greenlets-unstarted-middle-ancestor", False, False, True))
+# history: the first extraction of the process happens BEFORE greenlet is imported; later, inside nested greenlets, the stack
+# still continues through the greenlet parents (fresh subprocess: this one has greenlet loaded from the start)
+import subprocess
+LATE_GREENLET = r"""
+import sys, stackscope
+from stackscope import extract_since
+def early(): return extract_since(None)      # before the PROGRAM imports greenlet (whether the library did is its own business)
+first = early()
+import greenlet
+out = {}
+def truth(f):
+    res = []; g = greenlet.getcurrent()
+    while g is not None:
+        while f is not None: res.append(f); f = f.f_back
+        g = g.parent
+        if g is not None: f = g.gr_frame
+    return res[::-1]
+def inner():
+    me = sys._getframe(0)
+    out["got"] = [f.pyframe for f in extract_since(None).frames]; out["want"] = truth(me)
+def mid():
+    greenlet.greenlet(inner).switch()
+def top():
+    greenlet.greenlet(mid).switch()
+top()
+ok = out["got"] == out["want"] and len(out["want"]) >= 4 and [f.funcname for f in first.frames][-1] == "early"
+print("RESULT", ok, [f.f_code.co_name for f in out["got"]], [f.f_code.co_name for f in out["want"]])
+sys.exit(0 if ok else 1)
+"""
+leg.case("greenlet-imported-after-the-first-extraction", True)
+pr = subprocess.run([sys.executable, "-c", LATE_GREENLET], capture_output=True, text=True, timeout=120, env=dict(os.environ))
+if pr.returncode != 0:
+    leg.violation("greenlet-imported-after-the-first-extraction", "fresh process, an extraction before `import greenlet`, then extract_since(None) two greenlets deep: "
+                  + (pr.stdout.strip().splitlines() or [pr.stderr.strip()[-300:]])[-1][:500])
+
+# a stitched stack much longer than the recursion limit in force: the asker is a shallow greenlet whose PARENT is parked 400 frames
+# deep (a limit bounds how deep one may recurse, not how long a stack that spans greenlets may be)
+def deep_scenario():
+    res = {}
+    def descend(n, then):
+        return then() if n == 0 else descend(n - 1, then)
+    def parent_body():
+        descend(400, lambda: greenlet.getcurrent().parent.switch())
+    def worker():
+        old = sys.getrecursionlimit()
+        sys.setrecursionlimit(max(150, len(truth(sys._getframe(0))) // 3))
+        try:
+            st = extract_since(None)
+        finally:
+            sys.setrecursionlimit(old)
+        res["got"] = [f.pyframe for f in st.frames]; res["err"] = st.error
+        res["want"] = truth(sys._getframe(0))
+    P = greenlet.greenlet(parent_body); P.switch()            # parked 400 deep, back here
+    W = greenlet.greenlet(worker, parent=P)
+    try:
+        W.switch()
+    except BaseException as e:
+        res["raised"] = e
+    return res
+leg.case("stitched-stack-longer-than-the-recursion-limit", True)
+try:
+    rd = deep_scenario()
+except RecursionError as e:
+    rd = {"skip": e}
+if "skip" not in rd and (rd.get("err") is not None or rd.get("got") is None or rd.get("got") != rd.get("want")):
+    leg.violation("stitched-stack-longer-than-the-recursion-limit", f"extract_since(None) from a shallow greenlet whose parent is parked 400 deep, recursion limit lowered: "
+                  f"{len(rd.get('got') or [])} frames, expected {len(rd.get('want') or [])}; error={rd.get('err')!r} raised={rd.get('raised')!r}")
 leg.finish(exhaustive=True)
